@@ -44,6 +44,8 @@ def _sql(st: str) -> str:
     if k == "V":
         return f"create view vw{tl} as select 1 as x"
     if k == "B":
+        if tl.endswith("q"):     # the name written as a quoted identifier (upper case: the same database as unquoted)
+            return f'create database "DB{int(tl[:-1]) + 1}"'
         return f"create database db{int(tl) + 1}"
     if k == "i":
         t, kk, v = tl.split(".")
@@ -461,6 +463,7 @@ CORE = [
     ["T0.-.-", "i0.1.1", "i0.2.2", "u0.1.9", "d0.2", "M0.4", "D0"],
     ["T0.3.-", "D0", "T0.-.-", "q"],                         # drop + re-create (side tables keep the old comment: C09's business)
     ["T0.-.-", "b", "i0.1.1", "i0.2.2"],                     # exits with the transaction still open
+    ["B1q", "S2", "T0.-.-", "i0.1.1"],                       # CREATE DATABASE "DB2" (quoted): the same file as unquoted
 ]
 
 
@@ -499,8 +502,8 @@ def _random_hist(rnd: random.Random) -> list[str]:
         elif r < 0.97:
             views += 1
             out.append(f"V{views}")
-        elif not intx and "B1" not in out:
-            out.append("B1")
+        elif not intx and "B1" not in out and "B1q" not in out:
+            out.append(rnd.choice(["B1", "B1q"]))
         else:
             out.append("q")
     # INSERTs of the same key twice are fine (no constraints); S<n> only once
